@@ -128,8 +128,11 @@ def check(ctx, case, k=3, max_nodes=1500):
                     if not f2:
                         blamed = case["compilers"][i]
                         break
+            trig = ""
+            if blamed == "disjunctive" and comp.disjunctive_incdec_trigger(case["problem"]):
+                trig = ":split-conditional-increase"  # a root cause of its own (known finding)
             raise Violation(
-                f"incomplete:{blamed}",
+                f"incomplete:{blamed}{trig}",
                 f"original plan {describe(steps)} is valid but the compiled problem ({label}) has no counterpart: {why}",
                 case,
                 {"plan": describe(steps)},
